@@ -323,6 +323,7 @@ class ObjRun:
                                                "graph": self.sc["graph"]["graph"]}, got=self.total, expected=self.total_components)
         if "closed_form" in G:
             cf = float(G["closed_form"](self.vals))
+            ctx.count("closed_form_compared")
             ctx.count("decisions")
             if not close(self.total, cf, 1e-8):
                 ctx.violate("C01", "wrong_value", {"engine": "objhist", "obj_class": "JointDistribution", "how": "closed_form",
